@@ -264,8 +264,21 @@ fn install_and_check(ctx: &Ctx, rng: &mut Rng, is128: bool, path: &str, st: &mut
             let mut tap = vec![(blk.len() & 0xFF) as u8, (blk.len() >> 8) as u8];
             tap.extend_from_slice(&blk);
             m.emu.load_tape(Tape::Tap(mem_asset(tap))).expect("load_tape");
+            // 128K: the screen banks are also reachable through the 0xC000 window (bank 5, or
+            // bank 7 which is then the displayed one)
+            let mut dest = 0x4000u16;
             if is128 {
-                m.out(0x7FFD, 0x10); // ROM 1 (48 BASIC) holds LD-BYTES
+                let via = rng.below(3);
+                let latch = match via {
+                    0 => 0x10,            // ROM 1 (48 BASIC) holds LD-BYTES
+                    1 => 0x10 | 5,        // bank 5 at 0xC000, normal screen shown
+                    _ => 0x10 | 7 | 8,    // bank 7 at 0xC000, shadow screen shown
+                };
+                m.out(0x7FFD, latch);
+                if via != 0 {
+                    dest = 0xC000;
+                    note = format!("(128K latch {:02x}, loaded through the 0xC000 window) ", latch);
+                }
             }
             m.poke_bytes(0x8000, &[0x18, 0xFE]);
             m.poke_bytes(0xBEFE, &[0x00, 0x80]);
@@ -273,7 +286,7 @@ fn install_and_check(ctx: &Ctx, rng: &mut Rng, is128: bool, path: &str, st: &mut
             rf.pc = 0x0556;
             rf.sp = 0xBEFE;
             rf.af = 0xFF01;
-            rf.ix = 0x4000;
+            rf.ix = dest;
             rf.de = 6912;
             m.set_regs(&rf);
             if m.run_to(&[0x8000], 50).is_none() {
@@ -281,7 +294,7 @@ fn install_and_check(ctx: &Ctx, rng: &mut Rng, is128: bool, path: &str, st: &mut
                 return;
             }
             let carry = m.regs().af & 1;
-            note = format!("carry={}", carry);
+            note = format!("{}carry={}", note, carry);
             quiet(&mut m);
         }
         "sna" => {
